@@ -38,7 +38,7 @@ def main() -> int:
         print("replay:", "property holds on this input" if ok else "REPRODUCED: property fails on this input")
         return 0 if ok else 1
 
-    st = core.lean_prepare(mod.LEAN_MODULE, mod.THEOREMS)
+    st = core.lean_prepare(mod.LEAN_MODULE, mod.THEOREMS, extra_modules=tuple(getattr(mod, 'EXTRA_MODULES', ())))
     if args.tier == "thorough" and st.proofs_ok:
         core.run_leanchecker(st, mod.LEAN_MODULE)
     ctx = {"tier": args.tier, "seed": seed, "rng": core.Rng(seed), "build": st, "escalate": False}
